@@ -282,7 +282,12 @@ def check_predictor(res, case, p, entries, sub0, tag):
         t = mjd_time(m)
         for nm, fn in (("call", lambda: p(t)), ("f0", lambda: p.f0(t)), ("phasepol", lambda: p.phasepol(t)),
                        ("array call", lambda: p(Time([t.jd1, mjd_time(entries[0].tmid).jd1], [t.jd2, mjd_time(entries[0].tmid).jd2],
-                                                      format="jd", scale="utc")))):
+                                                      format="jd", scale="utc"))),
+                       # the one outside time is the LAST element of a 2 x 3 array (all others at a TMID)
+                       ("2-D array call", lambda: p(Time([mjd_time(entries[0].tmid).jd1] * 5 + [t.jd1], [mjd_time(entries[0].tmid).jd2] * 5 + [t.jd2],
+                                                          format="jd", scale="utc").reshape(2, 3))),
+                       ("2-D array f0", lambda: p.f0(Time([mjd_time(entries[0].tmid).jd1] * 5 + [t.jd1], [mjd_time(entries[0].tmid).jd2] * 5 + [t.jd2],
+                                                           format="jd", scale="utc").reshape(3, 2)))):
             res.transitions += 1
             try:
                 fn()
